@@ -1,2 +1,532 @@
-def correspond_concurrent(ctx, res):
+"""C16 — deterministic two-thread scheduler at bytecode granularity (DESIGN A.6) and the
+concurrent half of the correspondence.
+
+`sys.settrace` + `frame.f_trace_opcodes` park a real thread right before each bytecode that
+touches the shared `_cache` attribute / dict inside memoize_when_activated.wrapper,
+cache_activate, cache_deactivate and Process.oneshot; a controller grants one such bytecode at
+a time, following the step sequence the Lean model (Model/C16Conc.lean, run by the driver)
+produced for the same programs and schedule. Between two parks a thread only runs
+thread-local code, so a schedule replays exactly.
+
+model pc  -> parks granted on the implementation
+  call/exit -> gate                (the thread starts its next program item)
+  acquire   -> gate, acquire       (BEFORE_WITH on self._lock; only granted when the model says the lock is free)
+  test      -> test                (CALL hasattr(self, "_cache"))
+  act       -> act                 (STORE_ATTR _cache in cache_activate, on the target object)
+  del       -> del                 (DELETE_ATTR _cache in cache_deactivate, on the target object)
+  w0 / w3   -> load                (LOAD_ATTR _cache in wrapper)
+  w1        -> lookup              (BINARY_SUBSCR)
+  w2        -> compute             (CALL fun(self): the real file read)
+  w4        -> store               (STORE_SUBSCR)
+  act0, del0, release, ret, retErr -> nothing (thread-local on the implementation)
+"""
+import dis
+import itertools
+import sys
+import threading
+
+GRANTS = {"call": ["gate"], "exit": ["gate"], "acquire": ["gate", "acquire"], "test": ["test"],
+          "act": ["act"], "del": ["del"], "w0": ["load"], "w3": ["load"], "w1": ["lookup"],
+          "w2": ["compute"], "w4": ["store"], "act0": [], "del0": [], "release": [], "ret": [],
+          "retErr": []}
+
+# model function index -> (public method, file) per target object
+TARGETS = {
+    "proc": [("name", "stat"), ("num_threads", "status"), ("memory_maps", "smaps")],
+    "front": [("memory_info", "statm")],
+}
+
+FINDING_LITERAL = "C16-xthread-hit-predates-call"
+FINDING_STALE = "C16-xthread-stale-store"
+
+
+class Drift(Exception):
     pass
+
+
+_WARM = [False]
+
+
+def ensure_opcode_tracing():
+    """CPython 3.12 installs per-instruction events only when `sys.settrace` is called AFTER some
+    frame has asked for `f_trace_opcodes`; do that once, so that the very first scheduled frame
+    already gets its opcode events."""
+    if _WARM[0]:
+        return
+
+    def warm_target():
+        return None
+
+    def tr(frame, event, arg):
+        if event == "call" and frame.f_code is warm_target.__code__:
+            frame.f_trace_opcodes = True
+            return tr
+        return None
+    old = sys.gettrace()
+    sys.settrace(tr)
+    try:
+        warm_target()
+    finally:
+        sys.settrace(old)
+    _WARM[0] = True
+
+
+class Sched:
+    def __init__(self, impl, target):
+        ensure_opcode_tracing()
+        self.impl = impl
+        self.ps = impl.ps
+        self.p = impl.p
+        self.target_name = target
+        self.target = self.p if target == "front" else self.p._proc
+        w = self.ps.Process.cpu_times
+        self.codes = {}
+        self._scan(w.__code__, "wrapper")
+        self._scan(w.cache_activate.__code__, "activate")
+        self._scan(w.cache_deactivate.__code__, "deactivate")
+        self._scan(self.ps.Process.oneshot.__wrapped__.__code__, "oneshot")
+        self.parked = {}
+        self.go = {}
+        self.ctrl = threading.Event()
+        self.free = False
+        self.tids = {}
+        self.results = {}
+        self.trace_log = []
+
+    def _scan(self, code, what):
+        vis = {}
+        prev_global = None
+        for ins in dis.get_instructions(code):
+            kind = None
+            if what == "wrapper":
+                if ins.opname == "LOAD_ATTR" and ins.argval == "_cache":
+                    kind = "load"
+                elif ins.opname == "BINARY_SUBSCR":
+                    kind = "lookup"
+                elif ins.opname == "CALL":
+                    kind = "compute"
+                elif ins.opname == "STORE_SUBSCR":
+                    kind = "store"
+            elif what == "activate":
+                if ins.opname == "STORE_ATTR" and ins.argval == "_cache":
+                    kind = "act"
+            elif what == "deactivate":
+                if ins.opname == "DELETE_ATTR" and ins.argval == "_cache":
+                    kind = "del"
+            elif what == "oneshot":
+                if ins.opname == "BEFORE_WITH":
+                    kind = "acquire"
+                elif ins.opname == "LOAD_GLOBAL":
+                    prev_global = ins.argval
+                elif ins.opname == "CALL" and prev_global == "hasattr":
+                    kind = "test"
+                    prev_global = None
+            if kind:
+                vis[ins.offset] = kind
+        self.codes[code] = (what, vis)
+
+    # ---- worker side
+    def _tracer(self, frame, event, arg):
+        if event == "call" and frame.f_code in self.codes:
+            frame.f_trace_opcodes = True
+            return self._local
+        return None
+
+    def _local(self, frame, event, arg):
+        if event == "opcode" and not self.free:
+            what, vis = self.codes[frame.f_code]
+            kind = vis.get(frame.f_lasti)
+            if kind is not None:
+                if what == "wrapper":
+                    if frame.f_locals.get("self") is not self.target:
+                        return self._local
+                elif what in ("activate", "deactivate"):
+                    if frame.f_locals.get("proc") is not self.target:
+                        return self._local
+                self._park(kind)
+        return self._local
+
+    def _park(self, kind):
+        tid = self.tids[threading.get_ident()]
+        if self.free:
+            return
+        self.parked[tid] = kind
+        self.ctrl.set()
+        self.go[tid].wait()
+        self.go[tid].clear()
+
+    def _worker(self, tid, prog):
+        self.tids[threading.get_ident()] = tid
+        out = self.results[tid] = []
+        cms = []
+        sys.settrace(self._tracer)
+        try:
+            for item in prog:
+                self._park("gate")
+                if item[0] == "call":
+                    meth = TARGETS[self.target_name][item[1]][0]
+                    out.append(self.impl.outcome(meth, getattr(self.p, meth)))
+                elif item[0] == "acquire":
+                    cm = self.p.oneshot()
+                    try:
+                        cm.__enter__()
+                        cms.append(cm)
+                    except BaseException as e:  # noqa: BLE001
+                        out.append({"kind": "exc", "exc": type(e).__name__, "at": "enter"})
+                elif item[0] == "exit":
+                    if cms:
+                        try:
+                            cms.pop().__exit__(None, None, None)
+                        except BaseException as e:  # noqa: BLE001
+                            out.append({"kind": "exc", "exc": type(e).__name__, "at": "exit"})
+        finally:
+            sys.settrace(None)
+            self.parked[tid] = "done"
+            self.ctrl.set()
+
+    # ---- controller side
+    def _wait_parked(self, tid, timeout=10.0):
+        while self.parked.get(tid) is None:
+            if not self.ctrl.wait(timeout):
+                raise Drift("thread %d did not reach its next scheduling point (blocked?)" % tid)
+            self.ctrl.clear()
+
+    def _grant(self, tid, expect):
+        got = self.parked.get(tid)
+        if got != expect:
+            raise Drift("thread %d is parked at %r, the model expects %r" % (tid, got, expect))
+        self.parked[tid] = None
+        self.ctrl.clear()
+        self.go[tid].set()
+        self._wait_parked(tid)
+
+    def run(self, progs, steps):
+        """Execute `steps` (from the driver). Returns (per-thread results, drift message or None)."""
+        drift = None
+        threads = []
+        for tid, prog in enumerate(progs):
+            self.go[tid] = threading.Event()
+            self.parked[tid] = None
+            t = threading.Thread(target=self._worker, args=(tid, prog), daemon=True)
+            threads.append(t)
+        try:
+            for tid, t in enumerate(threads):
+                t.start()
+                self._wait_parked(tid)
+            files = [f for _, f in TARGETS[self.target_name]]
+            for st in steps:
+                if st["k"] == "ver":
+                    self.impl.ver[files[st["f"]]] = st["v"]
+                    self.impl._write(files[st["f"]])
+                elif st["k"] == "deny":
+                    if files[st["f"]] != "stat":
+                        self.impl.denied[files[st["f"]]] = st["b"]
+                elif st["k"] == "thr" and st["en"]:
+                    for kind in GRANTS[st["pc"]]:
+                        self._grant(st["tid"], kind)
+        except Drift as e:
+            drift = str(e)
+        finally:
+            self.free = True
+            for tid in self.go:
+                self.go[tid].set()
+            for t in threads:
+                t.join(10.0)
+            if any(t.is_alive() for t in threads):
+                drift = (drift or "") + " [a worker thread did not terminate]"
+        left = [tid for tid in self.parked if self.parked[tid] != "done"]
+        if drift is None and left:
+            drift = "threads %r had not finished their programs when the schedule ended" % left
+        return {tid: self.results.get(tid, []) for tid in range(len(progs))}, drift
+
+
+# ------------------------------------------------------------------------------ schedules
+
+
+def with_versions(picks, nfun):
+    """insert a content change of every source before every thread step: the returned
+    version then identifies the instant of the read"""
+    sched = []
+    v = 0
+    for t in picks:
+        for f in range(nfun):
+            v += 1
+            sched.append(["ver", f, v])
+        sched.append(t)
+    return sched
+
+
+def gen_case(rng, family):
+    target = "front" if rng.random() < 0.3 else "proc"
+    nfun = len(TARGETS[target])
+
+    def calls(lo, hi):
+        return [["call", rng.randrange(nfun)] for _ in range(rng.randrange(lo, hi + 1))]
+
+    def block(lo, hi):
+        return [["acquire"]] + calls(lo, hi) + [["exit"]]
+    if family == "plain_vs_block":
+        progs = [calls(0, 1) + block(0, 2) + calls(0, 1), calls(1, 3)]
+    elif family == "two_blocks":
+        progs = [block(0, 1) + block(1, 2), calls(1, 2)]
+    elif family == "both_block":
+        progs = [block(0, 2) + calls(0, 1), calls(0, 1) + block(0, 2)]
+    else:  # same function hammered
+        f = rng.randrange(nfun)
+        progs = [[["acquire"], ["call", f], ["call", f], ["exit"], ["acquire"], ["call", f], ["exit"]],
+                 [["call", f], ["call", f], ["call", f]]]
+    n = rng.randrange(20, 70)
+    style = rng.random()
+    picks = []
+    if style < 0.5:
+        picks = [rng.randrange(2) for _ in range(n)]
+    else:  # bursts: few pre-emptions
+        t = rng.randrange(2)
+        while len(picks) < n:
+            picks += [t] * rng.randrange(1, 9)
+            t = 1 - t
+    picks += [0, 1] * 60
+    return {"target": target, "progs": progs, "schedule": with_versions(picks, nfun), "family": family}
+
+
+SCHED_FAMILIES = ["plain_vs_block", "two_blocks", "both_block", "hammer"]
+
+
+def _tail():
+    return [0, 1] * 40
+
+
+def corpus_cases():
+    """Directed schedules (proc object, function 0 = name()/stat)."""
+    A, B = 0, 1
+    acq = [A] * 6                        # acquire, test, act, act, act, act0
+    rel = [A] * 6                        # exit, del, del, del, del0, release
+    # F1: B hits a value A read before B's call began
+    f1 = {"target": "proc", "family": "corpus:hit-predates-call",
+          "progs": [[["acquire"], ["call", 0], ["exit"]], [["call", 0]]],
+          "schedule": with_versions(acq + [A] * 6 + [B] * 4 + _tail(), 3)}
+    # F2: B's call straddles two blocks and stores its old value into the second block's dict
+    f2 = {"target": "proc", "family": "corpus:stale-store",
+          "progs": [[["acquire"], ["exit"], ["acquire"], ["call", 0], ["exit"]], [["call", 0]]],
+          "schedule": with_versions(acq + [B] * 4 + rel + acq + [B] * 3 + [A] * 4 + _tail(), 3)}
+    # issue 1948: B reaches its store after A deleted the attribute
+    f3 = {"target": "proc", "family": "corpus:issue1948",
+          "progs": [[["acquire"], ["exit"]], [["call", 0], ["call", 0]]],
+          "schedule": with_versions(acq + [B] * 4 + rel + [B] * 3 + _tail(), 3)}
+    # front-end object, same shapes
+    acqf = [A] * 7
+    f4 = {"target": "front", "family": "corpus:front-hit",
+          "progs": [[["acquire"], ["call", 0], ["exit"]], [["call", 0], ["call", 0]]],
+          "schedule": with_versions(acqf + [A] * 6 + [B] * 4 + [A] * 7 + _tail(), 1)}
+    return [f1, f2, f3, f4]
+
+
+def enumerate_one_call_vs_block(target):
+    """All interleavings of one plain call (thread 1) against one enter/exit pair with an empty
+    body (thread 0), at the granularity of the shared-state bytecodes: thread-local model
+    steps (act0, del0, release, ret) are glued to their predecessor."""
+    nact = 4 if target == "front" else 3
+    nfun = len(TARGETS[target])
+    # thread 0 units: [acquire], [test], [act]*(nact-1), [act, act0], [exit], [del]*(nact-1), [del, del0, release]
+    a_units = [[0], [0]] + [[0]] * (nact - 1) + [[0, 0]] + [[0]] + [[0]] * (nact - 1) + [[0, 0, 0]]
+    b_units = [[1]] * 5 + [[1, 1]]          # call, w0, w1, w2, w3, (w4, ret); shorter paths just finish early
+    na, nb = len(a_units), len(b_units)
+    for pos in itertools.combinations(range(na + nb), nb):
+        picks = []
+        ia = ib = 0
+        posset = set(pos)
+        for i in range(na + nb):
+            if i in posset:
+                picks += b_units[ib]
+                ib += 1
+            else:
+                picks += a_units[ia]
+                ia += 1
+        for f in range(nfun):
+            yield {"target": target, "family": "enum:%s" % target,
+                   "progs": [[["acquire"], ["exit"]], [["call", f]]],
+                   "schedule": with_versions(picks + [1, 1, 1, 0, 0, 0], nfun)}
+
+
+# ------------------------------------------------------------------------------ correspondence
+
+
+def driver_lines(cases):
+    return [{"op": "conc", "obj": c["target"], "progs": c["progs"], "sched": c["schedule"]} for c in cases]
+
+
+def annotate_steps(case, steps):
+    """attach f/v/b of world changes to the driver's step list (the driver only echoes kinds)"""
+    out = []
+    it = iter(steps)
+    for el in case["schedule"]:
+        st = dict(next(it))
+        if isinstance(el, list):
+            if el[0] == "ver":
+                st.update(f=el[1], v=el[2])
+            else:
+                st.update(f=el[1], b=el[2])
+        out.append(st)
+    return out
+
+
+def model_results(m, nthreads):
+    per = {t: [] for t in range(nthreads)}
+    for r in m["rets"]:
+        if "val" in r:
+            per[r["tid"]].append({"kind": "ok", "value": [r["val"]]})
+        else:
+            per[r["tid"]].append({"kind": "exc", "exc": r["exc"]})
+    return per
+
+
+def run_case(impl, case, m):
+    """one schedule on the implementation; returns (impl results, drift)"""
+    impl.reset()
+    for _, f in TARGETS[case["target"]]:
+        impl.ver[f] = 0
+        impl._write(f)
+    s = Sched(impl, case["target"])
+    steps = annotate_steps(case, m["steps"])
+    res, drift = s.run(case["progs"], steps)
+    return {str(t): v for t, v in res.items()}, drift
+
+
+PS_ERRORS = {"AccessDenied", "NoSuchProcess", "ZombieProcess"}
+
+
+def judge(case, impl_out, drift, m, sp, res, findings_known):
+    """compare one executed schedule; returns True when a disagreement was recorded"""
+    inp = {"schedule": case["schedule"], "progs": case["progs"], "target": case["target"],
+           "source": case["family"]}
+    mod = {str(t): v for t, v in model_results(m, len(case["progs"])).items()}
+    spurious = [o for outs in impl_out.values() for o in outs
+                if o.get("kind") == "exc" and o.get("exc") not in PS_ERRORS]
+    if spurious:
+        res.disagree("spec", inp, impl_out, mod, sp, note="a spurious %s escaped" % spurious[0]["exc"])
+        return True
+    if drift:
+        res.disagree("model", inp, {"results": impl_out, "drift": drift}, mod, sp,
+                     note="implementation left the model's step sequence: " + drift)
+        return True
+    if impl_out != mod:
+        res.disagree("model", inp, impl_out, mod, sp, note="returned values differ from the step model")
+        return True
+    if not sp["interval"] or sp["spurious"]:
+        res.disagree("spec", inp, impl_out, mod, sp,
+                     note="a returned value was not the content of its source at any instant between the "
+                          "activation of the block whose cache served it (or the start of the call) and the return",
+                     finding=FINDING_STALE if FINDING_STALE in findings_known else None)
+        if FINDING_STALE in findings_known:
+            res.known_seen[FINDING_STALE] = res.known_seen.get(FINDING_STALE, 0) + 1
+        return True
+    if not sp["literal"]:
+        res.known_seen[FINDING_LITERAL] = res.known_seen.get(FINDING_LITERAL, 0) + 1
+    return False
+
+
+def correspond_concurrent(ctx, res, cases=None):
+    from harness.props import c16
+    known = {f["id"] for f in ctx.findings}
+    if cases is None:
+        cases = corpus_cases()
+        n = ctx.n(300, 3000)
+        for i in range(n):
+            cases.append(gen_case(ctx.rng, SCHED_FAMILIES[i % len(SCHED_FAMILIES)]))
+        exhaustive = None
+        if ctx.tier == "thorough" and ctx.budget_factor == 1:
+            enum = list(enumerate_one_call_vs_block("proc")) + list(enumerate_one_call_vs_block("front"))
+            cases += enum
+            exhaustive = len(enum)
+    else:
+        exhaustive = None
+    outs = ctx.driver().batch(driver_lines(cases))
+    impl = c16.Impl(ctx)
+    old_switch = sys.getswitchinterval()
+    try:
+        for case, o in zip(cases, outs):
+            if "bad" in o:
+                raise RuntimeError("driver rejected schedule: %s" % o)
+            m, sp = o["model"], o["spec"]
+            impl_out, drift = run_case(impl, case, m)
+            enabled = [(s["tid"], s["pc"]) for s in m["steps"] if s["k"] == "thr" and s["en"]]
+            res.count("family:sched:" + case["family"].split(":")[0])
+            res.count("sched_steps", len(enabled))
+            for r in m["rets"]:
+                how = r.get("how")
+                res.count("sched_ret:" + ("exc" if "exc" in r else "computed" if how == "computed" else "hit"))
+            if not sp["literal"]:
+                res.count("sched:literal_form_false")
+            preempt = sum(1 for a, b in zip(enabled, enabled[1:]) if a[0] != b[0])
+            res.case(("sched", case["target"], case["progs"], enabled), nontrivial=preempt >= 2,
+                     sample={"family": case["family"], "target": case["target"], "progs": case["progs"],
+                             "steps": ["%d:%s" % e for e in enabled], "impl": impl_out}
+                     if case["family"].startswith("corpus:hit") else None)
+            judge(case, impl_out, drift, m, sp, res, known)
+        if exhaustive:
+            res.extra["exhaustive_schedules"] = ("all %d interleavings of one plain call against one enter/exit pair "
+                                                 "(both target objects, every function)" % exhaustive)
+    finally:
+        sys.setswitchinterval(old_switch)
+        impl.close()
+
+
+def _case_fails(ctx, impl, case):
+    o = ctx.driver().batch(driver_lines([case]))[0]
+    m, sp = o["model"], o["spec"]
+    impl_out, drift = run_case(impl, case, m)
+    mod = {str(t): v for t, v in model_results(m, len(case["progs"])).items()}
+    spurious = [x for outs in impl_out.values() for x in outs
+                if x.get("kind") == "exc" and x.get("exc") not in PS_ERRORS]
+    if spurious:
+        return True, impl_out, mod, sp
+    if drift or impl_out != mod:
+        return False, impl_out, mod, sp
+    return (not sp["interval"]) or sp["spurious"], impl_out, mod, sp
+
+
+def shrink(ctx, d):
+    from harness.common.shrink import ddmin
+    from harness.props import c16
+    inp = d["input"]
+    impl = c16.Impl(ctx)
+    try:
+        def fails(sched):
+            return _case_fails(ctx, impl, dict(inp, family="shrink", schedule=sched))[0]
+        small = ddmin(inp["schedule"], fails, max_tests=25)
+        ok, io, mo, sp = _case_fails(ctx, impl, dict(inp, family="shrink", schedule=small))
+        if ok:
+            return dict(d, input=dict(inp, schedule=small, source="shrunk"), impl=io, model=mo, spec=sp)
+    finally:
+        impl.close()
+    return d
+
+
+def replay(ctx, rp, res):
+    from harness.props import c16
+    impl = c16.Impl(ctx)
+    try:
+        inp = rp["input"]
+        case = {"target": inp["target"], "progs": inp["progs"], "schedule": inp["schedule"], "family": "replay"}
+        return _case_fails(ctx, impl, case)[0]
+    finally:
+        impl.close()
+
+
+def check_finding(ctx, fnd):
+    """Replay the recorded schedule: 'reproduces' when the implementation still returns the
+    recorded (defective) values."""
+    from harness.props import c16
+    w = fnd["witness"]
+    case = {"target": w["target"], "progs": w["progs"], "schedule": w["schedule"], "family": "finding"}
+    o = ctx.driver().batch(driver_lines([case]))[0]
+    impl = c16.Impl(ctx)
+    try:
+        impl_out, drift = run_case(impl, case, o["model"])
+    finally:
+        impl.close()
+    if drift:
+        return "gone (schedule no longer executable: %s)" % drift
+    if impl_out == w["impl_results"]:
+        return "reproduces"
+    return "gone"
